@@ -10,6 +10,12 @@ if HERE not in sys.path:
 
 
 def main(argv=None):
+    # details may quote file names that are not valid UTF-8 (lone surrogates): never let printing fail on them
+    for stream in (sys.stdout, sys.stderr):
+        try:
+            stream.reconfigure(errors="backslashreplace")
+        except Exception:
+            pass
     ap = argparse.ArgumentParser()
     ap.add_argument("prop")
     ap.add_argument("--tier", default=os.environ.get("VERIF_TIER") or "quick", choices=["quick", "thorough"])
